@@ -55,6 +55,8 @@ class C12(F.Spec):
             yield self.gen_server(rng, i)
         for i in range(120 if tier == "quick" else 1200):
             yield self.gen_buttons(rng, i)
+        for i in range(10 if tier == "quick" else 80):
+            yield self.gen_at_cfg(rng, i)
         for c in self.gen_anycall(rng, tier):
             yield c
 
@@ -153,6 +155,36 @@ class C12(F.Spec):
                     yield F.Case("anycall%d-%d-%d-%s" % (k, cid, n, board), ops,
                                  {"tags": ["kind:anycall", "board:" + board, "call:%d" % cid], "board": board, "kind": "server"})
 
+    def gen_at_cfg(self, rng, i):
+        """the configuration button (toggle gesture enabled) is also an action-trigger input: nine quick presses, then the server
+        changes the set of active triggers (channel configuration), then - at once or seconds later - one or two more presses.
+        Ten presses in quick succession did not happen; a server message is no cause of configuration mode."""
+        board = rng.choice(["relay2", "relay4"])
+        typ0 = 2 if i % 3 else 4
+        f0 = 0x03 | 0x20                      # CFG button, toggle gesture enabled
+        cap = (sum(1 << (10 + k) for k in range(1, 6)) | 1024) if typ0 == 2 else (sum(1 << (1 + k) for k in range(1, 6)) | 3)
+        m1 = (1 << 12) if typ0 == 2 else (1 << 3)          # x2
+        m2 = (1 << 13) if typ0 == 2 else (1 << 4)          # x3
+        ops = ["board " + board, "inflags 0 %d" % f0, "intype 0 %d" % typ0, "incap 0 5 %d" % cap, "inlevel 9 1", "inlevel 10 1", "init",
+               "inlog 1", "adv 1000", "attrig 0 %d" % rng.choice([0, m1])]
+        lvl = 1
+        def press():
+            nonlocal lvl
+            if typ0 == 2:
+                ops.extend(["input 9 0", "adv 150", "input 9 1", "adv 150"])
+            else:
+                lvl = 1 - lvl
+                ops.extend(["input 9 %d" % lvl, "adv 300"])
+        for _ in range(9):
+            press()
+        ops.append("attrig 0 %d" % rng.choice([m1, m2, m1 | m2]))
+        ops.append("adv %d" % [2500, 6000, 6000, 300][i % 4])
+        for _ in range(rng.choice([1, 1, 2])):
+            press()
+        ops.append("adv 2500")
+        return F.Case("atcfg%d-%s" % (i, board), ops, {"tags": ["kind:buttons", "gesture:at-config-change"], "board": board, "kind": "buttons",
+                                                       "at": True, "pin": 9, "f0": f0, "typ0": typ0, "gesture": ("atcfg",)})
+
     def gen_buttons(self, rng, i):
         board = rng.choice(["relay2", "relay4", "rs1", "rs2"])
         # input 0 is the configuration button; input 1 is a plain button
@@ -222,6 +254,8 @@ class C12(F.Spec):
         return "\n".join(ops) + "\n", exp
 
     def derive_model(self, case, raw):
+        if case.meta.get("at"):
+            return "", []        # action-trigger handling of the configuration button: judged by the gesture monitor only
         if case.meta.get("kind") == "buttons" or (case.meta.get("kind") is None and any(o.startswith("inlog ") for o in case.ops)):
             return self.derive_buttons(case, raw)
         ops, exp = [], []
@@ -370,7 +404,10 @@ class C12(F.Spec):
             mrc, mlines, merr = C.run_lines([C.svdrv(), "calcfg"], "".join(
                 "bootcfg %s %s\n" % (variant, "".join(str((v >> k) & 1) for k in range(9))) for v in vs))
             model = [x for x in mlines if x.startswith("BOOT ")]
-            for vi, v in enumerate(vs):
+            # (base build: every combination also as a record of the previous storage layout - tag version 6 -, which user_init
+            # migrates before it looks at it: a migration is no cause of configuration mode either)
+            runs = [(vi, v, False) for vi, v in enumerate(vs)] + ([(vi, v, True) for vi, v in enumerate(vs)] if variant == "base" else [])
+            for vi, v, old_layout in runs:
                 b = [(v >> k) & 1 for k in range(9)]      # locId0 locPwd0 email0 server0 wifiPwd0 ssid0 mqtt noauth locked
                 fl = (1 if b[6] else 0) | (8 if b[7] else 0) | (16 if b[8] else 0)
                 ops = ["prepare",
@@ -380,8 +417,8 @@ class C12(F.Spec):
                        "set %d %s" % (o["server"], (b"\0" if b[3] else b"srv.example\0").hex()),
                        "set %d %s" % (o["wpwd"], (b"\0" if b[4] else b"wifisecret\0").hex()),
                        "set %d %s" % (o["ssid"], (b"\0" if b[5] else b"net\0").hex()),
-                       "set %d %s" % (o["flags"], fl.to_bytes(4, "little").hex()),
-                       "save", "userinit"]
+                       "set %d %s" % (o["flags"], fl.to_bytes(4, "little").hex())] + (["set 5 06"] if old_layout else []) + \
+                      ["save", "userinit"]
                 rc, lines, err = C.run_lines([exe], "\n".join(ops) + "\n")
                 ev += 1
                 if rc != 0:
